@@ -7,8 +7,10 @@ design check : TLC on ColumnHistory.tla (list-of-values model with the dictionar
 binding      : for 24 column kinds (all those with hidden state - LowCardinality, Array, Map, Nullable, String,
                Tuple and nestings - plus representatives of the plain ones) EVERY history of length 3 (quick) / 4
                (thorough) over 10 operations (append one of three values, append two, Reset, Prepare, encode as a raw
-               block, write through the vectored writer, decode valid data, failed decode) and random histories up to
-               45 operations are executed on one real column object; TLC replays the history in the model and decodes
+               block, write through the vectored writer, decode valid data, failed decode), every placement of one bulk
+               operation (append / decode 260 distinct values - enough to leave one-byte LowCardinality keys) among
+               every 4-sequence (LowCardinality kinds; 2-sequence for the rest) of append / Reset / encode / decode,
+               and random histories up to 45 operations are executed on one real column object; TLC replays the history in the model and decodes
                every encode output with Wire.tla: it must be exactly the current contents."""
 import json
 import os
@@ -39,7 +41,7 @@ def body(run):
         depth = "4" if T else "3"
         with cf.ThreadPoolExecutor(max_workers=nshard) as ex:
             res = list(ex.map(lambda j: V.run_driver(drv, ["history", "-out", j[1], "-depth", depth, "-rand", "600" if T else "150", "-seed", str(run.seed),
-                                                       "-shard", str(j[0]), "-nshard", str(nshard)], timeout=2400), jobs))
+                                                       "-wide", "8" if T else "2", "-shard", str(j[0]), "-nshard", str(nshard)], timeout=2400), jobs))
         lines = []
         for (i, out), (rc, so, se, wall) in zip(jobs, res):
             if rc != 0:
